@@ -539,6 +539,17 @@ def check_export(model, rep):
     for n in ast.walk(fn):
         if isinstance(n, ast.Assign) and isinstance(n.value, ast.Dict) and len(n.value.keys) >= 8:
             unit_map = n.value
+        # the same mapping written in two columns: dict(zip(<names>, <units>)) with the names in a module-level tuple
+        if isinstance(n, ast.Assign) and isinstance(n.value, ast.Call) and isinstance(n.value.func, ast.Name) and n.value.func.id == 'dict' \
+                and len(n.value.args) == 1 and isinstance(n.value.args[0], ast.Call) and isinstance(n.value.args[0].func, ast.Name) \
+                and n.value.args[0].func.id == 'zip' and len(n.value.args[0].args) == 2:
+            cols = []
+            for a in n.value.args[0].args:
+                if isinstance(a, ast.Name):
+                    a = model.resolve_const(mod, a.id)[1]
+                cols.append(a)
+            if all(isinstance(c, (ast.Tuple, ast.List)) for c in cols) and len(cols[0].elts) == len(cols[1].elts) >= 8:
+                unit_map = ast.copy_location(ast.Dict(keys=list(cols[0].elts), values=list(cols[1].elts)), n.value)
     if unit_map is None:
         rep.cannot('C17.export', 'export_time_variables', 'unit mapping not recognised', f'{mod}:{fn.lineno}')
         return
